@@ -1340,6 +1340,168 @@ def sassFree (out : Str) : Bool :=
   | some s => !(segIsAtRule s.seg && sassAtRules.contains (atRuleName s.seg))
   | none => false
 
+/-! ## byte level (C05_output_valid_utf8, C05_charset_iff_bytes)
+
+  The Rust serializer assembles a `Vec<u8>` and turns it into a `String` with
+  `String::from_utf8_unchecked` (serializer.rs:633, :648).  The text model above is `List Char`; the
+  functions below model what Rust does on BYTES: `str::as_bytes` of a text (`encodeUtf8`, the encoder
+  of core/src/char/methods.rs `encode_utf8_raw`), the validity test that `from_utf8_unchecked` skips
+  (`validUtf8`, the automaton of core/src/str/validations.rs `run_utf8_validation`: no overlong forms,
+  no surrogates, nothing above U+10FFFF), `str::is_char_boundary`, and byte-level versions of the places
+  of serializer.rs that index or test bytes: `write_media_query`'s `condition["(not ".len()..len - 1]`
+  (:535), `finish`'s `is_not_ascii` / `push(b';')` / `insert(0, '\u{FEFF}')` (:637-654) and `str::len` in
+  `write_comment` (:1020, `byteLen`). -/
+
+abbrev Bytes := List UInt8
+
+/-- `char::encode_utf8` (core/src/char/methods.rs `encode_utf8_raw`). -/
+def encodeChar (c : Char) : Bytes :=
+  let n := c.toNat
+  if n < 0x80 then [UInt8.ofNat n]
+  else if n < 0x800 then [UInt8.ofNat (0xC0 + n / 64), UInt8.ofNat (0x80 + n % 64)]
+  else if n < 0x10000 then
+    [UInt8.ofNat (0xE0 + n / 4096), UInt8.ofNat (0x80 + n / 64 % 64), UInt8.ofNat (0x80 + n % 64)]
+  else
+    [UInt8.ofNat (0xF0 + n / 262144), UInt8.ofNat (0x80 + n / 4096 % 64), UInt8.ofNat (0x80 + n / 64 % 64),
+     UInt8.ofNat (0x80 + n % 64)]
+
+/-- `str::as_bytes` of a text. -/
+def encodeUtf8 : Str → Bytes
+  | [] => []
+  | c :: cs => encodeChar c ++ encodeUtf8 cs
+
+/-- State of the UTF-8 validator: continuation bytes still expected and the range allowed for the
+    NEXT one (the second byte of E0 / ED / F0 / F4 sequences is restricted: no overlong forms, no
+    surrogates, nothing above U+10FFFF). -/
+structure U8St where
+  need : Nat
+  lo : Nat
+  hi : Nat
+  deriving DecidableEq, Repr
+
+def U8St.init : U8St := ⟨0, 0x80, 0xBF⟩
+
+/-- One byte of `run_utf8_validation` (core/src/str/validations.rs; table of RFC 3629 §4). -/
+def utf8Step (s : U8St) (b : UInt8) : Option U8St :=
+  let n := b.toNat
+  if s.need = 0 then
+    if n < 0x80 then some ⟨0, 0x80, 0xBF⟩
+    else if 0xC2 ≤ n && n ≤ 0xDF then some ⟨1, 0x80, 0xBF⟩
+    else if n = 0xE0 then some ⟨2, 0xA0, 0xBF⟩
+    else if n = 0xED then some ⟨2, 0x80, 0x9F⟩
+    else if 0xE1 ≤ n && n ≤ 0xEF then some ⟨2, 0x80, 0xBF⟩
+    else if n = 0xF0 then some ⟨3, 0x90, 0xBF⟩
+    else if n = 0xF4 then some ⟨3, 0x80, 0x8F⟩
+    else if 0xF1 ≤ n && n ≤ 0xF3 then some ⟨3, 0x80, 0xBF⟩
+    else none
+  else if s.lo ≤ n && n ≤ s.hi then some ⟨s.need - 1, 0x80, 0xBF⟩
+  else none
+
+def utf8Run : U8St → Bytes → Option U8St
+  | s, [] => some s
+  | s, b :: bs => match utf8Step s b with | some s' => utf8Run s' bs | none => none
+
+/-- P̂ (valid UTF-8): what `str::from_utf8` checks and `from_utf8_unchecked` assumes. -/
+def validUtf8 (bs : Bytes) : Bool :=
+  match utf8Run U8St.init bs with
+  | some s => s.need == 0
+  | none => false
+
+/-- A continuation byte `10xxxxxx`. -/
+def isContByte (b : UInt8) : Bool := 0x80 ≤ b.toNat && b.toNat ≤ 0xBF
+
+/-- `str::is_char_boundary` (core/src/str/mod.rs): index 0, the length, or a byte that is not a
+    continuation byte (`(b as i8) >= -0x40`). -/
+def isCharBoundary (bs : Bytes) (i : Nat) : Bool :=
+  if i = 0 then true
+  else match bs[i]? with
+    | some b => !isContByte b
+    | none => i == bs.length
+
+/-- The byte range `bs[i..j]`. -/
+def sliceB (bs : Bytes) (i j : Nat) : Bytes := (bs.take j).drop i
+
+def isAsciiStr (p : Str) : Bool := p.all (fun c => c.toNat < 0x80)
+
+/-- `!u8::is_ascii` (serializer.rs:637). -/
+def nonAsciiB (b : UInt8) : Bool := 0x80 ≤ b.toNat
+
+/-- The three bytes of U+FEFF. -/
+def bomB : Bytes := [0xEF, 0xBB, 0xBF]
+
+def charsetPrefixB : Bytes := encodeUtf8 charsetPrefix
+
+/-- P̂ (charset, on bytes): the output starts with the bytes of `@charset "UTF-8";\n` or with EF BB BF. -/
+def hasCharsetOrBomB (out : Bytes) : Bool :=
+  charsetPrefixB.isPrefixOf out || bomB.isPrefixOf out
+
+/-- P̂ (charset rule, on bytes): header present exactly when allowed and a byte ≥ 0x80 follows it. -/
+def charsetOkB (allowsCharset : Bool) (out : Bytes) : Bool :=
+  let rest := if charsetPrefixB.isPrefixOf out then out.drop charsetPrefixB.length
+              else if bomB.isPrefixOf out then out.drop 3 else out
+  hasCharsetOrBomB out == (allowsCharset && rest.any nonAsciiB)
+
+def optNlB (st : Style) : Bytes := if st.isCompressed then [] else [0x0A]
+
+/-- `finish` (serializer.rs:635-657) on the byte buffer: `is_not_ascii` looks at bytes, `;` and the
+    newline are pushed as bytes, the BOM / `@charset` rule is inserted at byte index 0. -/
+def finishB (st : Style) (allowsCharset : Bool) (buf : Bytes) (prevSemi : Bool) : Bytes :=
+  let nonAscii := buf.any nonAsciiB
+  let b1 := if prevSemi then buf ++ [0x3B] else buf
+  let b2 := if !b1.isEmpty then b1 ++ optNlB st else b1
+  if nonAscii && st.isCompressed && allowsCharset then bomB ++ b2
+  else if nonAscii && allowsCharset then charsetPrefixB ++ b2
+  else b2
+
+/-- The bytes handed to `from_utf8_unchecked` + header: the buffer of the top-level loop as bytes,
+    finished by the byte-level `finish`. -/
+def serializeB (st : Style) (allowsCharset : Bool) (t : List Stmt) : Bytes :=
+  finishB st allowsCharset (encodeUtf8 (topLoop st Top.init t).buf) (topLoop st Top.init t).prevSemi
+
+structure QueryB where
+  modifier : Option Bytes
+  mediaType : Option Bytes
+  conditions : List Bytes
+  conjunction : Bool
+
+def Query.toB (q : Query) : QueryB :=
+  ⟨q.modifier.map encodeUtf8, q.mediaType.map encodeUtf8, q.conditions.map encodeUtf8, q.conjunction⟩
+
+def joinWithB (sep : Bytes) : List Bytes → Bytes
+  | [] => []
+  | [x] => x
+  | x :: y :: r => x ++ sep ++ joinWithB sep (y :: r)
+
+def notPrefixB : Bytes := encodeUtf8 (lit "(not ")
+
+/-- `write_media_query` (serializer.rs:517-541) on bytes; the slice is
+    `condition["(not ".len()..condition.len() - 1]` with BYTE indices. -/
+def queryOutB (q : QueryB) : Bytes :=
+  (match q.modifier with | some m => m ++ [0x20] | none => []) ++
+  (match q.mediaType with
+    | some t => t ++ (if q.conditions.isEmpty then [] else encodeUtf8 (lit " and "))
+    | none => []) ++
+  (match q.conditions with
+    | [c] =>
+      if notPrefixB.isPrefixOf c then encodeUtf8 (lit "not ") ++ sliceB c notPrefixB.length (c.length - 1)
+      else c
+    | cs => joinWithB (if q.conjunction then encodeUtf8 (lit " and ") else encodeUtf8 (lit " or ")) cs)
+
+def lastAscii (c : Str) : Bool :=
+  match c.getLast? with
+  | some x => x.toNat < 0x80
+  | none => false
+
+/-- What the slice `condition["(not ".len()..condition.len() - 1]` needs in order not to panic: at
+    least one character after the prefix, and the last character is one byte long (it is the `)` that
+    closes the condition). -/
+def notSliceOk (c : Str) : Bool := decide (6 ≤ c.length) && lastAscii c
+
+def Query.sliceOk (q : Query) : Bool :=
+  match q.conditions with
+  | [c] => !startsWith c (lit "(not ") || notSliceOk c
+  | _ => true
+
 /-- Driver entry.  Requests (after the `ser` token):
     `print <e|c> <0|1> <tree…>`   → `ok <hex of serialize> <wellFormed> <charsetOk> <treeOk> <sassFree> <treeReadable> <treeG> <bodyHasHeader> <embedOk of the canonical tree> <treeLeafFree for & $ % #>`
     `wf <hex>`                     → `ok <0|1>`   P̂ well-formedness of a text
@@ -1349,7 +1511,10 @@ def sassFree (out : Str) : Bool :=
     `readtree <hex>`               → `ok <tree>` | `none`    CssRead (whole serialised subset)
     `canon <e|c> <tree…>`          → `ok <tree>`             what `readtree` must return for that tree
     `quote <hex>`                  → `ok <hex of quote s> <quotedOk> <roundtrip ok>`
-    `quotedok <hex of token>`      → `ok <0|1> <hex of unescape or _>`  -/
+    `quotedok <hex of token>`      → `ok <0|1> <hex of unescape or _>`
+    `printb <e|c> <0|1> <tree…>`   → `ok <hex of serializeB> <validUtf8> <= encodeUtf8 (serialize)> <hasCharsetOrBomB> <charsetOkB>`
+    `utf8 <0|1> <hex bytes>`       → `ok <validUtf8> <charsetOkB> <length>`   P̂ on raw bytes
+    `mqb q …`                      → `ok <hex of queryOutB> <sliceOk> <= encodeUtf8 (queryOut)>`  -/
 def handle : List String → String
   | "print" :: st :: cs :: tree =>
     match parseStyle st, parseBool? cs, parseTree tree with
@@ -1401,6 +1566,27 @@ def handle : List String → String
     match hexStr h with
     | some s => "ok " ++ boolStr (quotedOk s) ++ " " ++ (match unescape s with | some u => outHex u | none => "_")
     | none => "bad-op"
+  | "printb" :: st :: cs :: tree =>
+    -- byte level: `ok <hex of serializeB> <validUtf8> <serializeB == encodeUtf8 (serialize)> <hasCharsetOrBomB> <charsetOkB>`
+    match parseStyle st, parseBool? cs, parseTree tree with
+    | some st, some cs, some t =>
+      let bs := serializeB st cs t
+      "ok " ++ hexEncodeBytes bs ++ " " ++ boolStr (validUtf8 bs) ++ " " ++
+        boolStr (bs == encodeUtf8 (serialize st cs t)) ++ " " ++ boolStr (hasCharsetOrBomB bs) ++ " " ++
+        boolStr (charsetOkB cs bs)
+    | _, _, _ => "bad-op"
+  | ["utf8", cs, h] =>
+    -- P̂ on raw bytes: `ok <validUtf8> <charsetOkB> <number of bytes>`
+    match parseBool? cs, hexDecodeBytes h with
+    | some cs, some bs => "ok " ++ boolStr (validUtf8 bs) ++ " " ++ boolStr (charsetOkB cs bs) ++ " " ++ toString bs.length
+    | _, _ => "bad-op"
+  | "mqb" :: q =>
+    -- byte-level write_media_query: `ok <hex of queryOutB> <sliceOk> <queryOutB == encodeUtf8 (queryOut)>`
+    match parseQuery q with
+    | some (q, []) =>
+      "ok " ++ hexEncodeBytes (queryOutB q.toB) ++ " " ++ boolStr q.sliceOk ++ " " ++
+        boolStr (queryOutB q.toB == encodeUtf8 (queryOut q))
+    | _ => "bad-op"
   | _ => "bad-op"
 
 end Grass.Serialize
